@@ -24,7 +24,8 @@ RULE = ('one run = one simulated hand on every variant plus user-defined street 
         'the hands (cards and facings) equal the model\'s. non-trivial = >= 2 dealing phases; distinct = distinct '
         '(configuration class, dealer mode, operation-class sequence) digests')
 ASSUMPTIONS = [
-    'single run-out (the board structure under several run-outs is C14\'s business)',
+    'several run-outs: the model prescribes the streets after the all-in street r times, r from the logged selections; '
+    'how the boards relate to each other is C14\'s business',
     'cards are known (the fallback threshold counts the cards not in play)',
 ]
 BIAS = dict(custom_num=2, chips=('int',), rakes=('none',))
@@ -89,7 +90,7 @@ def run(ch, ctx):
     mon = DealMonitor()
     world = None
     try:
-        world = World(ch, ctx, cfg, [mon], run_key=run_key_of(ch), runout_prefs=(None, 1),
+        world = World(ch, ctx, cfg, [mon], run_key=run_key_of(ch), runout_prefs=(None, 1, 2, 2, 3),
                       profile=ch.choice('c10.profile', ('passive', 'passive', 'balanced', 'folder')),
                       dealer=ch.choice('c10.dealer', ('engine', 'counted', 'explicit', 'explicit')),
                       explicit_index_num=1, muck_num=0, partial_show=False)
@@ -102,6 +103,7 @@ def run(ch, ctx):
         raise
     ctx.count('dealing_phases', mon.m.phases)
     ctx.count('stud_fallback_fired', mon.m.fallbacks)
+    ctx.count('runouts_gt1', mon.m.runouts > 1 and mon.m.returns_left is not None)
     ctx.count('draw_rounds', opseq(world.state).count('x') > 0)
     ctx.count('custom_variant', 'custom' in cfg)
     std_finish(world, ctx, mon.m.phases >= 2)
